@@ -12,6 +12,7 @@
 //!                      optional delta within its declared tolerance. Optional flags come from `iup_delta_optimize` or from
 //!                      a by-construction recipe (required set chosen to hit run/gap/count boundaries, optional deltas =
 //!                      rounded exact inference, declared tolerance 3/4).
+//!  * `gvar-many-peaks` thousands of tiny glyphs, distinct peak tuples around the 4095-entry limit of the shared tuple list.
 //!  * `gvar-offsets`    tables steered to a total glyph-data size around 131070 bytes (short/long offset switch).
 //!  * `draw`            fontkit variable font (hand-encoded glyf, fvar, gvar bytes from write-fonts); OutlineGlyph::draw
 //!                      unscaled, both path styles, at generated normalized locations versus the exact reference
@@ -1282,6 +1283,126 @@ fn test_offsets(c: &OffsetsCase, stats: &Stats) -> CaseResult {
 }
 
 // ---------------------------------------------------------------------------------------------------------------
+// gvar-many-peaks: thousands of tiny glyphs whose tuples draw their peaks from a pool of distinct regions around the
+// 4095-entry limit of the shared tuple list (tupleIndex has 12 index bits)
+// ---------------------------------------------------------------------------------------------------------------
+
+#[derive(Clone, Debug, Serialize, Deserialize)]
+struct ManyCase {
+    naxes: u8,
+    /// distinct peaks used by at least two tuples (candidates for the shared tuple list)
+    shared: u16,
+    /// how many of those are used a third time
+    triple: u16,
+    /// distinct peaks used exactly once (always embedded)
+    once: u16,
+    /// tuples per glyph
+    tpg: u8,
+    /// real points per glyph (+ 4 phantom points)
+    npts: u8,
+    /// peak of pool member k: axis 0 = (k % 181 + 1) * s0, axis 1 = (k / 181 + 1) * s1, further axes c2
+    s0: i16,
+    s1: i16,
+    c2: i16,
+    vals: Vec<i16>,
+    /// every n-th tuple has an intermediate region / takes its flags from iup_delta_optimize (0 = never)
+    inter_every: u8,
+    iup_every: u8,
+    perm: u64,
+}
+
+fn many_strategy() -> impl Strategy<Value = ManyCase> {
+    let stride = prop_oneof![1i16..=80, -80i16..=-1];
+    (
+        (2u8..=3, prop_oneof![1 => 20u16..=400, 1 => Just(4090u16), 2 => Just(4094u16), 3 => Just(4095u16), 3 => Just(4096u16), 3 => Just(4097u16), 2 => Just(4100u16), 1 => 4101u16..=5000], 0u16..=40, 0u16..=30),
+        (2u8..=4, 0u8..=4, stride.clone(), stride, prop_oneof![Just(0i16), Just(16384i16), -16384i16..=16384]),
+        (pvec(prop_oneof![3 => Just(0i16), 4 => -20i16..=20, 1 => -3000i16..=3000], 1..12), 0u8..=5, 0u8..=5, any::<u64>()),
+    )
+        .prop_map(|((naxes, shared, triple, once), (tpg, npts, s0, s1, c2), (vals, inter_every, iup_every, perm))| ManyCase { naxes, shared, triple, once, tpg, npts, s0, s1, c2, vals, inter_every, iup_every, perm })
+}
+
+fn test_many(c: &ManyCase, stats: &Stats) -> CaseResult {
+    let m = c.shared as usize;
+    if m == 0 || m > 5100 || c.s0 == 0 || c.s1 == 0 || c.s0.unsigned_abs() > 80 || c.s1.unsigned_abs() > 80 || c.vals.is_empty() || c.tpg == 0 || c.npts > 4 || !(2..=4).contains(&c.naxes) {
+        return Err(fail("harness", "malformed replay case (many)".into()));
+    }
+    let naxes = c.naxes as usize;
+    let once = c.once as usize;
+    let triple = (c.triple as usize).min(m);
+    // pool member k -> region
+    let region = |k: usize, inter: bool| -> Vec<TentM> {
+        (0..naxes)
+            .map(|a| {
+                let p = match a {
+                    0 => ((k % 181) as i16 + 1) * c.s0,
+                    1 => ((k / 181) as i16 + 1) * c.s1,
+                    _ => c.c2,
+                };
+                if inter && p != 0 { if p > 0 { (p / 2, p, 16384) } else { (-16384, p, p / 2) } } else { (p.min(0), p, p.max(0)) }
+            })
+            .collect()
+    };
+    // slot -> pool member: every shared member twice (two different multiplicative orders), the first `triple` a third
+    // time, then the `once` members (pool indices m..m+once)
+    let mut slots: Vec<usize> = vec![];
+    for j in 0..m {
+        slots.push((j * 7919 + 13) % m);
+    }
+    for j in 0..once {
+        slots.push(m + j);
+    }
+    for j in 0..m {
+        slots.push((j * 6271 + 101) % m);
+    }
+    for j in 0..triple {
+        slots.push((j * 5) % m);
+    }
+    let np = c.npts as usize + 4;
+    let base: [P; 8] = [(0, 0), (10, 0), (10, 7), (0, 7), (0, 0), (12, 0), (0, 9), (0, -3)];
+    let coords: Vec<P> = base[..c.npts as usize].iter().chain(&base[4..]).copied().collect();
+    let ends: Vec<usize> = if c.npts > 0 { vec![c.npts as usize - 1] } else { vec![] };
+    let mut model: Vec<BGlyph> = vec![];
+    for (si, k) in slots.iter().enumerate() {
+        if si % c.tpg as usize == 0 {
+            model.push(BGlyph { coords: coords.clone(), ends: ends.clone(), tuples: vec![] });
+        }
+        let inter = c.inter_every != 0 && si % c.inter_every as usize == 0;
+        let deltas: Vec<P> = (0..np).map(|i| (c.vals[(si + i) % c.vals.len()] as i32, c.vals[(si * 3 + i + 1) % c.vals.len()] as i32)).collect();
+        let (req, tol) = if c.iup_every != 0 && si % c.iup_every as usize == 0 {
+            let tol = TOLS[(si / c.iup_every as usize) % 3];
+            (check_iup(&coords, &ends, &deltas, tol)?.required, tol)
+        } else {
+            (vec![true; np], TOLS[0])
+        };
+        model.last_mut().unwrap().tuples.push(BTuple { tents: region(*k, inter), deltas, req, tol });
+    }
+    let bytes = build_gvar(&model, naxes, c.perm)?;
+    let mut cnt = Cnt::default();
+    let (dec, _) = check_table(&model, &bytes, &mut cnt)?;
+    stats.class(match m {
+        0..=4094 => "many|shareable-peaks<4095",
+        4095 => "many|shareable-peaks=4095",
+        4096 => "many|shareable-peaks=4096",
+        4097 => "many|shareable-peaks=4097",
+        _ => "many|shareable-peaks>4097",
+    });
+    stats.class(match dec.shared_tuples {
+        0..=4094 => "many|shared-tuple-list<4095",
+        4095 => "many|shared-tuple-list=4095",
+        _ => "many|shared-tuple-list>4095",
+    });
+    stats.class_n("many|glyphs", model.len() as u64);
+    stats.class_n("many|tuples", slots.len() as u64);
+    stats.class_n("many|tuples,peak=embedded", *cnt.0.get("tuple|peak=embedded").unwrap_or(&0));
+    stats.class_n("many|tuples,peak=shared", *cnt.0.get("tuple|peak=shared").unwrap_or(&0));
+    stats.evals(slots.len() as u64);
+    if m >= 4095 {
+        stats.nontrivial(hash_json(c));
+    }
+    Ok(())
+}
+
+// ---------------------------------------------------------------------------------------------------------------
 // part 3: draw route
 // ---------------------------------------------------------------------------------------------------------------
 
@@ -1629,6 +1750,7 @@ fn main() {
         "iup-exhaustive: every contour of the finite spaces listed under `exhaustive_stages` (one engine case = one block of the enumeration; evaluations count single contours) x tolerance {0, 1/2, 1}. \
          iup-random: proptest outlines of 1..6 contours x 1..60 points + 4 phantom points (steps biased to 0 / +-3 / +-60 / +-1500, so ties and collinear runs are common), deltas linear-in-coordinate / constant / zero / random with sparse noise, tolerance {0, 1/4, 1/2, 3/4, 1, 4}. \
          gvar-table / gvar-offsets / draw: 1..4 axes, pool of 1..12 regions (peak-only and intermediate tents; peaks +-1, +-0.5, +-1 bit, random), 1..12 glyphs of 0..900 points (bulk: 1500..6000), 0..6 tuples each; optional flags from iup_delta_optimize, or required sets by recipe (runs of 1..200 required points with gaps 1..600 incl. 127/128/129/255/256/257, zero/byte/word deltas) with optional deltas = rounded exact inference, or a copy of the previous tuple's point set; draw adds 3..6 normalized locations per case (region starts, peaks, ends, midpoints, +-1 bit, default, random). \
+         gvar-many-peaks: 2..3 axes, up to ~5000 glyphs of 0..4 points with 2..4 tuples each, peaks from a pool of distinct regions: 20..5000 (mostly 4094/4095/4096/4097/4100) used two or three times + 0..30 used once, every n-th tuple with an intermediate region / iup flags; whole table checked (non-trivial: >= 4095 shareable peaks). \
          Non-trivial: iup stages: at least one real (non-phantom) delta was marked optional (exhaustive: a block containing such a contour); table/offsets stages: a tuple has optional deltas, or a delta run >= 63 / point count 127..129 / point gap >= 127 was written, or (offsets) the data size is within 8 bytes of 131070; draw: a glyph was drawn at a location where a tuple with inferred deltas is active. Distinct by hash of the generated case.",
     );
     ctx.assume("the oracle is this file's transcription of the OpenType rules in exact integer/rational arithmetic (i128): inference of un-referenced point deltas, tuple scalars, packed point numbers / packed deltas / TupleVariationHeader / gvar header decoding; read-fonts is compared against that decoder, not trusted");
@@ -1654,6 +1776,9 @@ fn main() {
     }
     if on("gvar-offsets") {
         ctx.prop_stage("gvar-offsets", Isolation::Threads, ctx.n(160, 1_000), offsets_strategy, test_offsets);
+    }
+    if on("gvar-many-peaks") {
+        ctx.prop_stage("gvar-many-peaks", Isolation::Threads, ctx.n(96, 960), many_strategy, test_many);
     }
     if on("draw") {
         ctx.prop_stage("draw", Isolation::Threads, ctx.n(14_000, 100_000), || gvar_strategy(DRAW_PARAMS), test_draw);
